@@ -121,6 +121,10 @@ def run(repo, rep, tier):
               "at one place: the element that uses a macro",
               construct="macroname-bound-once", where=L.where(ve_),
               detail="lines %s" % [n_.lineno for n_ in binds])
+    # "rendered in the caller's context" on a copy of it (C05 owns Scope)
+    from . import c05 as _c05
+    L.borrow(repo, rep, "R09.2", "C05", _c05._scope_rule,
+             ("copy-returns-new-layer", "copy"), minimum=2)
     # data-metal-* is metal:* (C18 owns the conversion)
     from . import c18 as _c18
     L.borrow(repo, rep, "R09.3", "C18", _c18._keyed, ("convert-first",))
